@@ -68,32 +68,35 @@ theorem stepSession_rewind (cx : Ctx) (tc : TapCtx) (ep e : IEnv) (hinv : ep.Inv
     by_cases hpc : ep.pc.isEmpty = true
     · -- end of the current script
       simp only [hpc, Bool.not_true, Bool.false_eq_true, if_false] at hs
-      by_cases hp2 : ep.isP2sh = true
-      · simp only [hp2, if_true] at hs
-        -- P2SH hand-over: the new position is the start of the redeem script
-        cases hl : ep.see.stack.getLast? with
-        | none => simp [hl, fail] at hs
-        | some top =>
-          simp only [hl] at hs
-          by_cases hcb : castToBool top = true
-          · simp only [hcb, Bool.not_true, Bool.false_eq_true, if_false] at hs
-            by_cases hps : isPayToScriptHash ep.see.script = true
-            · simp only [hps, if_true] at hs
-              cases hr : ep.p2shStack.getLast? with
-              | none => simp [hr] at hs
-              | some redeem =>
-                simp only [hr] at hs
-                cases hs
-                refine ⟨⟨by simp, fun _ => by simp [atStart]⟩, Or.inl ?_⟩
-                refine ⟨?_, instRewind_of_atStart ?_⟩ <;> simp [atStart]
-            · simp [hps, fail] at hs
-          · simp [hcb, fail] at hs
-      · simp only [hp2, Bool.false_eq_true, if_false] at hs
-        by_cases hsu : ep.successor.isEmpty = true
-        · simp only [hsu, Bool.not_true, Bool.false_eq_true, if_false] at hs
-          -- the end-of-script step: only `done` changes
-          by_cases hc : ep.see.cond.empty = true
-          · simp only [hc, Bool.not_true, Bool.false_eq_true, if_false] at hs
+      by_cases hc : ep.see.cond.empty = true
+      · simp only [hc, Bool.not_true, Bool.false_eq_true, if_false] at hs
+        by_cases hp2 : ep.isP2sh = true
+        · simp only [hp2, if_true] at hs
+          -- P2SH hand-over: the new position is the start of the redeem script
+          cases hl : ep.see.stack.getLast? with
+          | none => simp [hl, fail] at hs
+          | some top =>
+            simp only [hl] at hs
+            by_cases hcb : castToBool top = true
+            · simp only [hcb, Bool.not_true, Bool.false_eq_true, if_false] at hs
+              by_cases hps : isPayToScriptHash ep.see.script = true
+              · simp only [hps, if_true] at hs
+                by_cases hpo : (ep.sigscriptExecuted && !ep.sigscriptPushonly) = true
+                · simp [hpo, fail] at hs
+                · simp only [hpo, Bool.false_eq_true, if_false] at hs
+                  cases hr : ep.p2shStack.getLast? with
+                  | none => simp [hr] at hs
+                  | some redeem =>
+                    simp only [hr] at hs
+                    cases hs
+                    refine ⟨⟨by simp, fun _ => by simp [atStart]⟩, Or.inl ?_⟩
+                    refine ⟨?_, instRewind_of_atStart ?_⟩ <;> simp [atStart]
+              · simp [hps, fail] at hs
+            · simp [hcb, fail] at hs
+        · simp only [hp2, Bool.false_eq_true, if_false] at hs
+          by_cases hsu : ep.successor.isEmpty = true
+          · simp only [hsu, Bool.not_true, Bool.false_eq_true, if_false] at hs
+            -- the end-of-script step: only `done` changes
             cases hs
             refine ⟨⟨hinv.pcLe, fun h => by simp [htce] at h⟩, ?_⟩
             simp only [instRewind]
@@ -103,11 +106,11 @@ theorem stepSession_rewind (cx : Ctx) (tc : TapCtx) (ep e : IEnv) (hinv : ep.Inv
               have hat' : (ep.pc.length == ep.see.script.length) = false := by simpa [atStart] using hat
               simp only [atStart, hat', Bool.false_eq_true, if_false, if_true]
               cases ep; simp_all
-          · simp [hc, fail] at hs
-        · simp only [hsu, Bool.not_false, if_true] at hs
-          cases hs
-          refine ⟨⟨by simp, fun _ => by simp [atStart]⟩, Or.inl ?_⟩
-          refine ⟨?_, instRewind_of_atStart ?_⟩ <;> simp [atStart]
+          · simp only [hsu, Bool.not_false, if_true] at hs
+            cases hs
+            refine ⟨⟨by simp, fun _ => by simp [atStart]⟩, Or.inl ?_⟩
+            refine ⟨?_, instRewind_of_atStart ?_⟩ <;> simp [atStart]
+      · simp [hc, fail] at hs
     · -- an operation of the script
       simp only [hpc, Bool.not_false, if_true] at hs
       cases hst : step cx ep.see ep.pc with
